@@ -349,6 +349,7 @@ mod listing {
         ("Ao", "A", "alias -- @a"),
         ("Vo", "V", "typeset -p -- @v"),
         ("Fo", "F", "typeset -fp -- @f"),
+        ("Fr", "Fr", "typeset -fpr"),
         ("Tc", "T", "trap -p @c"),
         ("Tp", "T", "trap -p"),
         // after `set -o portable` (if the history asks for it) and a second `snap`
@@ -371,6 +372,7 @@ mod listing {
         let find2 = |n: &str| vars2.iter().find(|v| v.0 == n);
         for l in s1 {
             let ok = match (k, l.as_bytes()[0] as char) {
+                ("Fr", 'F') => l.split(' ').nth(2) != Some("1") || has(l),
                 ("A", 'L') | ("T", 'T') | ("U", 'M') | ("Us", 'M') | ("O", 'O') | ("F", 'F') => has(l),
                 ("V", 'V') => {
                     let (n, _, _) = var_fields(l).ok_or("snapshot")?;
